@@ -102,6 +102,23 @@ fn client_query_bytes(plan: &PlanB, qi: usize, cookies: &HashMap<usize, Vec<u8>>
                 c.extend_from_slice(&[0x42; 32]);
                 opts.push((10, c));
             }
+            CookieSpec::ForgedUnderGuessedKey { key, form } => {
+                use hmac::Mac as _;
+                let octets = |ip: IpAddr, mapped: bool| -> Vec<u8> {
+                    match (ip, mapped) {
+                        (IpAddr::V4(a), false) => a.octets().to_vec(),
+                        (IpAddr::V4(a), true) => a.to_ipv6_mapped().octets().to_vec(),
+                        (IpAddr::V6(a), _) => a.octets().to_vec(),
+                    }
+                };
+                let mut mac = hmac::Hmac::<sha2::Sha256>::new_from_slice(key).unwrap();
+                mac.update(&e.client_cookie);
+                mac.update(&octets(q.dst.ip(), form & 1 != 0));
+                mac.update(&octets(q.src_ip, form & 2 != 0));
+                let mut c = e.client_cookie.to_vec();
+                c.extend_from_slice(&mac.finalize().into_bytes());
+                opts.push((10, c));
+            }
             CookieSpec::Malformed(n) => opts.push((10, vec![0x11; *n])),
         }
         opts.extend(e.extra.clone());
